@@ -172,7 +172,10 @@ def gen_annot_tree(rng, depth, dt, shape=None):
     if k == "Sliced":
         N = n + int(rng.integers(0, 3))
         inner = true_leaf(rng, N, dt, S.pick(rng, ["SelfAdjoint", "PSD", "Unitary"]))
-        if rng.random() < 0.6:  # equal index sets
+        if free and N >= 3 and rng.random() < 0.2:  # near-miss: same stop and step, different start (a non-square block)
+            a, b = (int(x) for x in rng.choice(np.arange(0, N - 1), size=2, replace=False))
+            sl = [{"s": [a, N, None]}, {"s": [b, N, None]}]
+        elif rng.random() < 0.6:  # equal index sets
             s = S.slice_for(rng, N, n, unique=True)
             sl = [s, dict(s)]
         elif rng.random() < 0.5 and N > n:  # near-miss: same length, shifted by one / permuted
